@@ -260,6 +260,137 @@ def analyse_tr_counter(mir):
     return out
 
 
+def analyse_builtin_sites(mir):
+    """Every function of system_calls.rs that calls MachineState::trail (attribute lists, global
+    variables): on each path, every store into a heap cell / into a global variable's slot that is
+    not followed by a resource-error return must be matched by a trail() call naming the same
+    location (z3: location arguments equal), of the entry kind that unwind_trail needs:
+      cell of a dereferenced AttrVar  -> TrailRef::Ref(Ref::attr_var(h))
+      attribute list link at h        -> TrailRef::AttrVarListLink(h, _)
+      overwritten global value        -> TrailRef::BlackboardOffset(key, old value)
+      new / emptied global slot       -> TrailRef::BlackboardEntry(key)
+    Returns (queries, meta, structural)."""
+    celltag = enum_values("src/types.rs", "HeapCellValueTag")
+    queries, meta, structural = [], [], []
+    fns = []
+    for n in mir.index:
+        if not n.startswith("system_calls::") or "closure" in n:
+            continue
+        b = mir.body(n)
+        if any(re.search(r"MachineState>::trail\(", l) for ls in b.blocks.values() for l in ls):
+            fns.append((n, b))
+    for n, b in sorted(fns):
+        short = n.split("::")[-1]
+        heads = util.back_edge_targets(b)
+        entries = ["bb0"] + list(heads)
+        npaths = 0
+        for entry in entries:
+            try:
+                paths = core.Executor(b, stop_blocks=tuple(heads), max_depth=800, max_paths=8000).run(entry)
+            except core.Unsupported as e:
+                structural.append({"fn": short, "ok": None, "why": str(e)})
+                continue
+            for p in paths:
+                evs = p.events
+                trails = [(i, e) for i, e in enumerate(evs)
+                          if e[0] == "call" and re.search(r"MachineState>?::trail$", e[1])]
+                # heap stores: index_mut(heap, i) whose result is written through / set_value'd
+                stores = []
+                for i, e in enumerate(evs):
+                    if e[0] == "call" and e[1].endswith("<heap::Heap as IndexMut<usize>>::index_mut"):
+                        written = False
+                        for j in range(i + 1, len(evs)):
+                            f = evs[j]
+                            if f[0] == "store" and re.match(r"^\(\*_\d+\)$", f[1]):
+                                m = re.match(r"^\(\*(_\d+)\)$", f[1])
+                                if p.env.get(m.group(1)) == e[3] or True:
+                                    written = True
+                                    break
+                            if f[0] == "call" and f[1].endswith("HeapCellValue::set_value") and f[2][0] == e[3]:
+                                written = True
+                                break
+                            if f[0] == "call" and f[1].endswith("index_mut"):
+                                break
+                        if written:
+                            stores.append((i, "heap", e[2][1]))
+                    if e[0] == "store" and re.search(r"\(\*_\d+\)\.1( as Some\)\.0)?$", e[1]) and \
+                            "global" in short:
+                        kind = "slot_value" if "as Some" in e[1] else "slot"
+                        stores.append((i, kind, e[1]))
+                if not stores and not trails:
+                    continue
+                npaths += 1
+                for (i, kind, loc) in stores:
+                    # an allocation failure after the store returns through the resource error
+                    later_err = any(f[0] == "call" and re.search(r"resource_error", f[1]) for f in evs[i:])
+                    if later_err:
+                        continue
+                    if kind == "heap":
+                        cands = []
+                        for (ti, te) in trails:
+                            a = te[2][1]
+                            if a[0] == "agg" and a[1].endswith("TrailRef::AttrVarListLink"):
+                                cands.append(("link", a[2][0]))
+                            elif a[0] == "agg" and a[1].endswith("TrailRef::Ref"):
+                                r = a[2][0]
+                                if r[0] == "app" and re.search(r"Ref::(attr_var|heap_cell|stack_cell)$", r[1]):
+                                    cands.append((r[1].split("::")[-1], r[2][0]))
+                        label = "%s: store into heap[%s] is trailed with the same location" % (
+                            short, util.term_str(loc)[:60])
+                        if not cands:
+                            structural.append({"fn": short, "ok": False, "why": "store without trail entry",
+                                               "obligation": label})
+                            continue
+                        enc = Encoder()
+                        l = enc.bv(loc)
+                        disj = " ".join("(= %s %s)" % (l, enc.bv(c[1])) for c in cands)
+                        queries.append(enc.decls() + "\n(assert (not (or false %s)))" % disj)
+                        meta.append({"obligation": label, "fn": short})
+                        # entry kind for a cell reached through a dereferenced AttrVar
+                        root = loc
+                        while root[0] == "op" and root[1].startswith("cast"):
+                            root = root[2][0]
+                        if root[0] == "app" and root[1].endswith("get_value"):
+                            cell = root[2][0]
+                            is_attr = any(c[1] == "==" and c[0][0] == "disc" and c[0][1][0] == "app" and
+                                          c[0][1][1].endswith("get_tag") and c[0][1][2][0] == cell and
+                                          c[2] == celltag.get("AttrVar") for c in p.conds)
+                            if is_attr:
+                                same = [c for c in cands if c[1] == loc or
+                                        (c[1][0] == "op" and c[1][2][0] == root) or c[1] == root]
+                                kinds = set(c[0] for c in cands if c[0] != "link")
+                                structural.append({
+                                    "fn": short, "obligation": "%s: the cell of an AttrVar is trailed as "
+                                    "Ref::attr_var (unwinding restores the attributed variable)" % short,
+                                    "ok": kinds == {"attr_var"}, "why": "kinds %s" % sorted(kinds)})
+                    else:
+                        want = "BlackboardOffset" if kind == "slot_value" else "BlackboardEntry"
+                        got = [te[2][1][1].split("::")[-1] for (_ti, te) in trails if te[2][1][0] == "agg"]
+                        structural.append({"fn": short, "obligation": "%s: %s a global variable's slot is "
+                                           "trailed as %s" % (short, "overwriting the value in" if
+                                                              kind == "slot_value" else "filling", want),
+                                           "ok": want in got, "why": "trail entries %s" % got})
+        structural.append({"fn": short, "obligation": "%s: analysed (%d paths with stores or trail calls)" % (
+            short, npaths), "ok": True if npaths else None, "why": ""})
+    if not fns:
+        structural.append({"fn": "-", "obligation": "trail call sites in system_calls.rs", "ok": None,
+                           "why": "none found"})
+    # dedupe
+    seen, uq, um = set(), [], []
+    for q, m in zip(queries, meta):
+        if (q, m["obligation"]) not in seen:
+            seen.add((q, m["obligation"]))
+            uq.append(q)
+            um.append(m)
+    seen, us = set(), []
+    for st in structural:
+        k = (st.get("obligation"), st["ok"], st.get("why"))
+        if k not in seen:
+            seen.add(k)
+            us.append(st)
+    return uq, um, us
+
+
 def run(thorough=False):
     try:
         mir, secs, cached = util.get()
@@ -267,16 +398,19 @@ def run(thorough=False):
         queries, meta = analyse_trail(mir)
         unwind = analyse_unwind(mir)
         binds = analyse_bind(mir)
+        site_q, site_m, site_s = analyse_builtin_sites(mir)
     except Exception as e:  # noqa
         log("  mirsmt C11: cannot analyse (%s)" % e)
         return {"exit": EXIT_INCONCLUSIVE, "mirsmt_error": str(e)}
-    br = smt.check_batch(queries, thorough=thorough)
-    res = {"evaluations": len(queries) + len(unwind) + len(binds), "distinct_nontrivial": 0,
+    br = smt.check_batch(queries + site_q, thorough=thorough)
+    res = {"evaluations": len(queries) + len(unwind) + len(binds) + len(site_q) + len(site_s),
+           "distinct_nontrivial": 0,
            "samples": [],
            "mirsmt_regions": ["MachineState::trail (TrailRef::Ref arms)",
                               "Machine::unwind_trail (TrailedHeapVar/StackVar/AttrVar arms)",
                               "MachineState::bind, MachineState::bind_attr_var (store -> trail)",
-                              "every function that pushes onto the trail (tr bookkeeping)"],
+                              "every function that pushes onto the trail (tr bookkeeping)",
+                              "every system_calls.rs function calling trail(): store -> matching entry"],
            "mirsmt_seconds": br["z3_s"],
            "mirsmt_assumptions": ["hb / b hold the heap top / choice point of the newest choice "
                                   "point (their maintenance is outside)",
@@ -293,6 +427,25 @@ def run(thorough=False):
         res["samples"].append({"query": "exists h. h < %s and no %s entry pushed" % (m["field"], m["kind"]),
                                "answer": r["answer"], "entry_fields_ok": m["flows_ok"],
                                "smt": q.split("\n")[-2:]})
+    unknown = []
+    for m, r in zip(site_m, br["results"][len(queries):]):
+        good = r["answer"] == "unsat"
+        res["distinct_nontrivial"] += good
+        if r["answer"] == "sat":
+            viol.append({"site": m["fn"], "obligation": m["obligation"], "answer": "sat"})
+        elif not good:
+            unknown.append(m)
+        res["samples"].append({"query": m["obligation"], "answer": r["answer"]})
+    for st in site_s:
+        if st["ok"] is True:
+            res["distinct_nontrivial"] += 1
+        elif st["ok"] is False:
+            viol.append({"site": st["fn"], "obligation": st.get("obligation"), "why": st.get("why")})
+        else:
+            unknown.append(st)
+        res["samples"].append({"query": st.get("obligation"), "answer": {True: "holds", False: "fails",
+                                                                         None: "not understood"}[st["ok"]],
+                               "note": st.get("why", "")})
     for u in unwind:
         res["distinct_nontrivial"] += bool(u["ok"])
         if not u["ok"]:
@@ -316,9 +469,10 @@ def run(thorough=False):
         res["samples"].append({"query": "%s: each of %d cell stores is followed by trail() of the "
                                "same cell" % (bnd["fn"], bnd["stores"]),
                                "answer": "holds" if good else "fails"})
-    log("  mirsmt C11: %d trail guards + %d unwind arms + %d bind fns, %d hold, %d violations "
-        "(z3 %.2fs)" % (len(queries), len(unwind), len(binds), res["distinct_nontrivial"],
-                        len(viol), br["z3_s"]))
+    log("  mirsmt C11: %d trail guards + %d unwind arms + %d bind fns + %d builtin-site obligations, "
+        "%d hold, %d violations, %d not understood (z3 %.2fs)" % (
+            len(queries), len(unwind), len(binds), len(site_q) + len(site_s),
+            res["distinct_nontrivial"], len(viol), len(unknown), br["z3_s"]))
     if viol:
         res["mirsmt_violations"] = viol
         from .. import prolog
@@ -332,4 +486,7 @@ def run(thorough=False):
             log("  mirsmt C11: model did not reproduce on the binary (%s) -> inconclusive" %
                 rp.get("why"))
             res["exit"] = EXIT_INCONCLUSIVE
+    elif unknown:
+        res["mirsmt_not_understood"] = unknown
+        res["exit"] = EXIT_INCONCLUSIVE
     return res
